@@ -87,7 +87,7 @@ Theorem C03_output_holds_members : forall epoch d t mt x y hm,
     zip_read x = Some es /\ copy_all x es = Ok outs /\
     let outs' := map (fun o => fst (clamp_member epoch (d, t) o)) outs in
     y = zip_write outs' /\
-    (Forall (fun o => N.of_nat (length (zo_name o)) < 65536) outs' -> N.of_nat (length outs') < 65535 ->
+    (Forall (fun o => N.of_nat (length (zo_name o)) < 65536) outs' ->
      N.of_nat (length (locals_of outs')) < 4294967295 -> N.of_nat (length (central_of outs')) < 4294967296 -> no_locator y ->
      exists es', zip_read y = Some es' /\ length es' = length es /\ copy_all y es' = Ok (map renorm outs')).
 Proof. exact zip_output_holds_members. Qed.
